@@ -86,7 +86,10 @@ class CPSys:
 
         class Res:
             def __init__(self, idx):
-                self.idx = idx
+                object.__setattr__(self, "idx", idx)
+
+            def __setattr__(self, name, value):     # like a frozen dataclass: caching must not go through setattr
+                raise AttributeError(f"cannot assign to field {name!r}")
 
             attr = deco(getter)
 
